@@ -95,7 +95,7 @@ def _purge():
     for name, mod in list(sys.modules.items()):
         if name.startswith("sa.") or name == "sa":
             for k, v in list(vars(mod).items()):
-                if k.startswith("_") and k.upper() == k and isinstance(v, dict):
+                if isinstance(v, dict) and (k.endswith("CACHE") or k in ("_KV", "_CLASS_LITS", "_CTX")):      # caches only: tables of the rules stay
                     v.clear()
     gc.collect()
 
